@@ -158,13 +158,16 @@ FitFx(n, d, k, y, size, cfx, xs, sums) ==
 (* admitted sizes, so a correct implementation can never be on the wrong   *)
 (* side of it.)                                                            *)
 (***************************************************************************)
+(* T = SqTable(Q, sums, size) and cd2 = Sq(size) are operator ARGUMENTS: TLC
+   evaluates an argument once, but a LET definition at every use. *)
+PredictExactWith(T, cd2, out, nq, k) ==
+    /\ Len(out) = nq
+    /\ \A i \in 1..nq :
+          /\ out[i] \in 0..(k - 1)
+          /\ IsNearest(T[i], cd2, out[i] + 1)
+
 PredictExact(Q, out, sums, size) ==
-    LET cd2 == Sq(size)
-        T   == SqTable(Q, sums, size)
-    IN  /\ Len(out) = Len(Q)
-        /\ \A i \in 1..Len(Q) :
-              /\ out[i] \in 0..(Len(size) - 1)
-              /\ IsNearest(T[i], cd2, out[i] + 1)
+    PredictExactWith(SqTable(Q, sums, size), Sq(size), out, Len(Q), Len(size))
 
 (***************************************************************************)
 (* Fixed-point form, for continuous data and for fits with an empty        *)
@@ -178,12 +181,13 @@ PredictExact(Q, out, sums, size) ==
 FxD(q, c) == SumTo([j \in 1..Len(q) |-> (q[j] - c[j]) * (q[j] - c[j])], Len(q))
 FxT(q, c) == SumTo([j \in 1..Len(q) |-> 2 * Abs(q[j] - c[j]) + 3], Len(q))
 
+FxAdmissible(q, c8, lo) == \A c \in 1..Len(c8) : lo <= FxD(q, c8[c]) + FxT(q, c8[c])
+
 PredictFx(Q8, out, c8) ==
     /\ Len(out) = Len(Q8)
     /\ \A i \in 1..Len(Q8) :
           /\ out[i] \in 0..(Len(c8) - 1)
-          /\ LET lo == FxD(Q8[i], c8[out[i] + 1]) - FxT(Q8[i], c8[out[i] + 1])
-             IN  \A c \in 1..Len(c8) : lo <= FxD(Q8[i], c8[c]) + FxT(Q8[i], c8[c])
+          /\ FxAdmissible(Q8[i], c8, FxD(Q8[i], c8[out[i] + 1]) - FxT(Q8[i], c8[out[i] + 1]))
 
 (***************************************************************************)
 (* The assignment step ("filtering") against exhaustive search.            *)
@@ -220,11 +224,13 @@ MinPair(Drow, cd2) == LET c == ArgNearest(Drow, cd2) IN <<Drow[c], cd2[c]>>
 (* For integer / half-integer centroids and S >= 2 nothing is inexact and  *)
 (* the clause pins the distortion to within one unit of 2^-S.              *)
 (***************************************************************************)
-DistortionFxOK(T, cd2, n, distFx, S) ==
-    LET mp == [i \in 1..n |-> MinPair(T[i], cd2)]
-        lower == SumTo([i \in 1..n |-> FxDiv(mp[i][1], mp[i][2], S)], n)
+DistortionFxWith(mp, n, distFx, S) ==
+    LET lower == SumTo([i \in 1..n |-> FxDiv(mp[i][1], mp[i][2], S)], n)
         slack == Cardinality({i \in 1..n : FxInexact(mp[i][1], mp[i][2], S)})
     IN  lower - 1 <= distFx /\ distFx <= lower + slack + 1
+
+DistortionFxOK(T, cd2, n, distFx, S) ==
+    DistortionFxWith([i \in 1..n |-> MinPair(T[i], cd2)], n, distFx, S)
 
 (* exact form for the design model: all denominators equal (cdAll), the
    distortion is the rational num/den *)
